@@ -20,7 +20,7 @@ import (
 // race detector instruments or treats as synchronisation).
 
 const maxSpinTasks = 64
-const maxSites = 48
+const maxSites = 256
 
 // SpinConfig is the scheduling part of a spin-back-end replay tuple.
 type SpinConfig struct {
@@ -219,6 +219,18 @@ func (s *Spin) site(name string) int {
 	return maxSites - 1
 }
 
+var spinIgnoredSites = [...]string{"runtime.IndexToString", "IndexToString:", ":adt.get:"}
+
+//go:norace
+func spinContains(s, sub string) bool {
+	for i := 0; i+len(sub) <= len(s); i++ {
+		if s[i:i+len(sub)] == sub {
+			return true
+		}
+	}
+	return false
+}
+
 //go:norace
 func (s *Spin) Yield(site string) {
 	me := s.me()
@@ -229,11 +241,15 @@ func (s *Spin) Yield(site string) {
 	if s.noYield[me] > 0 {
 		return
 	}
-	// Label-to-string conversions happen inside sort comparisons over Go map
-	// iteration results: how many there are is not a function of the seed, so
-	// they are not decision points (the read lock they take is exercised anyway).
-	if site == "runtime.IndexToString" {
-		return
+	// Not decision points, because how often they are reached is not a function
+	// of the seed: label-to-string conversions happen inside sort comparisons over
+	// Go map iteration results, and the regexp memoizer of the evaluator
+	// (adt/weakmap.go) misses whenever the garbage collector has cleared its weak
+	// pointer. The locks and map operations there are exercised all the same.
+	for _, ig := range spinIgnoredSites {
+		if spinContains(site, ig) {
+			return
+		}
 	}
 	idx := s.site(site)
 	s.siteYields[idx]++
